@@ -6,6 +6,7 @@
 mod alloc;
 #[path = "/repo/src/cli/src/errors.rs"]
 mod errors;
+mod fuzz;
 #[path = "/repo/src/cli/src/keyring.rs"]
 mod keyring;
 mod kr;
@@ -45,6 +46,13 @@ fn real_main() {
             }
             let ctx = stream::Ctx { t: terms::Templates::load(&args[2]), seed: seed() };
             stream::run_file(&ctx, &args[3], &args[4]);
+        }
+        "fuzz" => {
+            if args.len() != 5 {
+                usage();
+            }
+            let t = terms::Templates::load(&args[2]);
+            fuzz::run_file(&t, seed(), &args[3], &args[4]);
         }
         "kr" => {
             if args.len() != 5 {
